@@ -377,3 +377,41 @@ def object_state(prog, cls, ctor_types, args, steps=(), hooks=None, inline=None)
         root = lambda k: k.split(".")[0].split("[")[0]
         state = {k: v for k, v in ev.env.items() if root(k) in fields}
     return state
+
+
+
+class Heap:
+    """A heap of model objects that are built and changed only through their classes' own constructors and methods
+    (folded): rules that describe their scenarios this way do not name private members. Objects live at the integer
+    addresses the rule picks; `env()` is the resulting environment for a fold (cells `@addr.member`)."""
+
+    def __init__(self, prog, hooks=None, inline=None, dyn_type=None):
+        from cpv.ceval import Evaluator
+        self.prog = prog
+        anyf = next(iter(prog.functions.values()))
+        self.ev = Evaluator(prog, anyf, env={}, calls=dict(hooks if hooks is not None else string_hooks()))
+        self.ev.heap_mode = True
+        self.ev.pass_object = True
+        self.ev.objects = True
+        self.ev.inline = set(inline or ())
+        self.ev.dyn_type = dyn_type if dyn_type is not None else {}
+        self.ev._model_checked = True
+
+    def _pick(self, cls, name, args, kind=None, types=None):
+        c = [f for f in self.prog.methods_of(cls) if (f.kind == kind if kind else f.name == name) and len(f.params) == len(args) and (types is None or [q["ct"] for q in f.params] == list(types))]
+        if len(c) != 1:
+            raise AnalysisBroken("%s::%s with %d parameter(s)%s not found (or ambiguous)" % (cls, name or cls, len(args), " " + str(types) if types else ""))
+        return c[0]
+
+    def construct(self, addr, cls, args=(), types=None):
+        g = self._pick(cls, None, list(args), kind="ctor", types=types)
+        self.ev.dyn_type[addr] = cls
+        self.ev._run_special(g, "@%d." % addr, list(args), None, g.qn)
+        return addr
+
+    def call(self, addr, cls, name, args=(), types=None):
+        g = self._pick(cls, name, list(args), types=types)
+        return self.ev._run_special(g, "@%d." % addr, list(args), None, g.qn)
+
+    def env(self):
+        return dict(self.ev.env)
